@@ -1152,7 +1152,8 @@ def judge(case):
         return dict(violates=impl[0] != "refused", detail=f"documented ValueError class ({doc}); implementation: {impl[0]} "
                                                           f"{impl[1] if impl[0] != 'ok' else ''}")
     if impl[0] != "ok":
-        wellformed = not muts or set(muts) <= {"clbits", "reverse_obs_dict", "drop_obs_label", "append_reset"}
+        wellformed = not muts or set(muts) <= {"clbits", "reverse_obs_dict", "drop_obs_label", "append_reset", "read_definition", "call_before",
+                                               "alias", "fancy_suffix"}
         return dict(violates=wellformed, detail=f"implementation raised on a {'well-formed' if wellformed else 'malformed (undocumented class)'} "
                                                 f"request: {impl[0]} {impl[1]}")
     # ---- the contract on a successful call ----
